@@ -44,6 +44,7 @@ func VP_C15_crash() {
 	err = r.WriteSector(x, z, data)
 	vp.FreezeClock(false)
 	vp.Assert(err == nil, "WriteSector")
+	vpCheckOccupancy(r, S+4) // allocator state stays consistent with the header (inductive step)
 	// crash point: after `c` complete physical writes, the next one torn at `t` bytes
 	c := vp.Choice(len(mem.log) + 1)
 	image := before
